@@ -189,6 +189,7 @@ class FnSpec:
         self.foreachs = {}  # closure n -> (container expr, invariant text)   (R-FOREACH)
         self.foldloops = {}  # closure n -> (container expr, invariant text)   (R-FOLD)
         self.ats = []  # (arm pattern prefix, anchor text, 'before'|'after', ghost text): ghost text spliced at a statement boundary
+        self.retproofs = []  # (anchor text, ghost text): `return E` => `{ let __ret = E; <ghost> return __ret; }` (R-RETBIND)
         self.liftcalls = {}  # closure n -> replacement text for the method call that takes it (R-LIFTCALL)
         self.orguard = False  # R-ORGUARD: `A | B if G => X` => `A if G => X, B if G => X`
 
@@ -407,6 +408,8 @@ class Generator:
                     spec.foldloops[cur[1][0]] = (cur[1][1], text)
                 elif k == "at":
                     spec.ats.append(cur[1] + (text,))
+                elif k == "retproof":
+                    spec.retproofs.append((cur[1], text))
                 elif k == "pretailproof":
                     spec.pretailproof = text
                 cur = None
@@ -527,6 +530,11 @@ class Generator:
                             raise RuntimeError("bad at directive: %r" % d)
                         un = lambda t: t.replace('\\"', '"')
                         cur = ("at", (un(m.group(1)), un(m.group(2)), m.group(3), (int(m.group(4)), int(m.group(5))) if m.group(4) else (1, 1)), None)
+                    elif cmd == "retproof":
+                        m = re.match(r'"((?:[^"\\]|\\.)*)"\s*$', arg)
+                        if not m:
+                            raise RuntimeError("bad retproof directive: %r" % d)
+                        cur = ("retproof", m.group(1).replace('\\"', '"'), None)
                     elif cmd == "orguard":
                         spec.orguard = True
                     elif cmd == "liftcall":
@@ -882,6 +890,17 @@ class Generator:
             c, call = clos_call(n)
             common.append((call["span"][0], call["span"][1], rep_text))
             self.log.append({"rule": "R-LIFTCALL", "site": site, "what": "`.%s(…, closure %d)` => `%s`" % (call["name"], n, rep_text)})
+        # R-RETBIND: `return E` => `{ let __retN = E; <ghost text> return __retN; }` (binding the returned value first is the identity;
+        # gives the exit proof of that return a place where the value has a name)
+        for k, (anchor, text) in enumerate(spec.retproofs):
+            pat = r"\s+".join(re.escape(w) for w in anchor.split())
+            hits = [r for r in it.get("returns", []) if r["expr"] is not None and re.search(pat, src[r["span"][0]:r["span"][1]].decode())]
+            if len(hits) != 1:
+                raise Undecided("retproof: `%s` matches %d return statements (lost anchor)" % (anchor, len(hits)))
+            r = hits[0]
+            common.append((r["span"][0], r["expr"][0], "{ let __ret%d = " % k))
+            common.append((r["expr"][1], r["span"][1], ";\n" + ghost(text.replace("__ret", "__ret%d" % k)) + "\n return __ret%d; }" % k))
+            self.log.append({"rule": "R-RETBIND", "site": site, "what": "`return %s` bound to a variable before returning" % anchor})
         # R-FOREACH: `X.iter_mut().for_each(|PAT| BODY)` => index loop handing out `&mut` to every item in order
         def split_top(txt):
             """`(a, (b, c))` -> ['a', '(b, c)'] (top-level commas of a parenthesised tuple pattern)"""
@@ -1170,6 +1189,9 @@ class Generator:
             for t in c["requires"]:
                 req.append("(%s) ==> (%s)" % (c["when"], t.strip().rstrip(",")))
             for _, t in c["ensures"]:
+                # a clause written `/*noview*/ …` is proved (or a known finding) here but not handed to callers
+                if t.strip().startswith("/*noview*/"):
+                    continue
                 ens.append("(%s) ==> (%s)" % (c["when"], t.strip().rstrip(",")))
         spec_text = ""
         if req:
